@@ -8,6 +8,8 @@ open ZoektModel ZoektModel.C03
 /-- `a` may stand before `b` in a slice sorted with `sortByOffsetSlice.Less` -/
 def cle (a b : Cand) : Prop := candLess b a = false
 
+instance : DecidableRel cle := fun a b => inferInstanceAs (Decidable (candLess b a = false))
+
 theorem candLess_iff (a b : Cand) : candLess a b = true ↔
     (a.fileName = true ∧ b.fileName = false) ∨
     (a.fileName = b.fileName ∧ (a.off < b.off ∨ (a.off = b.off ∧ a.sz > b.sz))) := by
